@@ -55,7 +55,8 @@ def _variants(prop, renamed_mutants=False):
             except (OSError, ValueError):
                 meta = {}
             fc = meta.get("checks_first_contact", {})
-            touched = {rid.split("-")[0]} | set(fc.get("false_violation", [])) | set(fc.get("undecided", []))
+            cn = meta.get("checks_now", {})
+            touched = {rid.split("-")[0]} | set(fc.get("false_violation", [])) | set(fc.get("undecided", [])) | set(cn.get("undecided", [])) | set(meta.get("known_limit", {}))
             if prop in touched:
                 out.append(("twin", dict(name=f"refactoring {rid}", patch=pth, known_limit=meta.get("known_limit", {}).get(prop))))
     # every driver must give the clean verdict on the alpha-renamed package, and still see every mutant there
